@@ -9,6 +9,7 @@
 -/
 import MW.Lemmas.RemoveUpperDefs
 import MW.Lemmas.RemoveMain
+import MW.Lemmas.RemoveEx
 namespace MW.Lemmas.RemoveUpper
 open MW MW.Model.Ledger MW.Model.Remove MW.Spec.Chain MW.Spec.Books MW.Lemmas.Ledger MW.Lemmas.RemoveProj
   MW.Lemmas.RemoveChar MW.Lemmas.RemoveBooks MW.Lemmas.RemoveScan MW.Lemmas.RemoveStep MW.Lemmas.RemoveFrame
@@ -396,3 +397,213 @@ theorem mid_step_U (limit : Nat) (H : RemHyp c w addrs own' chain) (HU : UpperOK
         exfalso
         apply hk
         exact List.mem_map.2 ⟨(k, cr), hR.all hf (k, cr) (get_mem hgk) hc, rfl⟩
+
+-- ------------------------------------------------------------------ the results, relative to the upper book
+
+/-- every non-finishing step keeps the in-progress invariant -/
+theorem parked_step_U (limit : Nat) (H : RemHyp c w addrs own' chain) (HU : UpperOK c w own' chain U) {s : Store}
+    (hM : MidU c w addrs own' s chain U)
+    {o : StepOut} (h : removeStep limit c w addrs s = some o) (hf : o.finish = false) :
+    MidU c w addrs own' o.s chain U := (mid_step_U limit H HU hM (removeStep_parked h hf)).1
+
+/-- THE FINISHING STEP: from the in-progress invariant to C01's invariant for the context without the keystore -/
+theorem finish_projects_U (limit : Nat) (H : RemHyp c w addrs own' chain) (HU : UpperOK c w own' chain U) {s : Store}
+    (hM : MidU c w addrs own' s chain U)
+    (ws' : List Wid) (hws : ∀ x ∈ ws', x ∈ c.wallets)
+    {o : StepOut} (h : removeStep limit c w addrs s = some o) (hf : o.finish = true) :
+    Inv { c with own := own', wallets := ws' } o.s chain := by
+  obtain ⟨o1, hr, hfin, hos⟩ := removeStep_finish h hf
+  obtain ⟨hM1, hDone⟩ := mid_step_U limit H HU hM hr
+  have hDone := hDone hfin
+  have hBM := HU.minus
+  have hV' : ChainValid own' chain := chainValid_minus H.minus H.valid
+  have hkeys := HU.keys
+  have hcred : ∀ k, AMap.get o1.s.credits k = (bookOf c.p own' chain).credits k := by
+    intro k
+    rcases hM1.credits k with h1 | ⟨h1, cr, h2, h3⟩
+    · cases hb : U.credits k with
+      | none =>
+        rw [h1, hb]
+        cases hb' : (bookOf c.p own' chain).credits k with
+        | none => rfl
+        | some cr' => rw [((hBM.credits k cr').1 hb').1] at hb; cases hb
+      | some cr =>
+        rw [h1, hb]
+        exact ((hBM.credits k cr).2 ⟨hb, hDone k cr (by rw [h1]; exact hb)⟩).symm
+    · rw [h1]
+      cases hb' : (bookOf c.p own' chain).credits k with
+      | none => rfl
+      | some cr' =>
+        obtain ⟨h4, h5⟩ := (hBM.credits k cr').1 hb'
+        rw [h2] at h4
+        rw [← Option.some.inj h4, h3] at h5; cases h5
+  have hdeb : ∀ dk, AMap.get o1.s.debits dk = (bookOf c.p own' chain).debits dk := by
+    intro dk
+    rcases hM1.debits dk with h1 | ⟨h1, d, cr, h2, h3, h4⟩
+    · cases hb : U.debits dk with
+      | none =>
+        rw [h1, hb]
+        cases hb' : (bookOf c.p own' chain).debits dk with
+        | none => rfl
+        | some d' => rw [((hBM.debits dk d').1 hb').1] at hb; cases hb
+      | some d =>
+        rw [h1, hb]
+        obtain ⟨cr, hcr, _⟩ := HU.debitCredit _ _ hb
+        have hw : isW c.own w cr.sh = false := by
+          cases hw : isW c.own w cr.sh with
+          | false => rfl
+          | true =>
+            have := hM1.debitsW dk d cr (by rw [h1]; exact hb) hcr hw
+            rw [hDone d.2 cr this] at hw; cases hw
+        exact ((hBM.debits dk d).2 ⟨hb, cr, hcr, hw⟩).symm
+    · rw [h1]
+      cases hb' : (bookOf c.p own' chain).debits dk with
+      | none => rfl
+      | some d' =>
+        obtain ⟨h5, cr', h6, h7⟩ := (hBM.debits dk d').1 hb'
+        rw [h2] at h5
+        rw [← Option.some.inj h5, h3] at h6
+        rw [← Option.some.inj h6, h4] at h7; cases h7
+  have htx : ∀ k, AMap.get o1.s.txrecs k = (bookOf c.p own' chain).txrecs k := by
+    intro k
+    rcases hM1.txrecs k with h1 | ⟨h1, h2⟩
+    · cases hb : U.txrecs k with
+      | none =>
+        rw [h1, hb]
+        cases hb' : (bookOf c.p own' chain).txrecs k with
+        | none => rfl
+        | some l' => rw [((hBM.txrecs k l').1 hb').1] at hb; cases hb
+      | some loc =>
+        rw [h1, hb]
+        cases hb' : (bookOf c.p own' chain).txrecs k with
+        | some l' => rw [((hBM.txrecs k l').1 hb').1] at hb; exact hb.symm
+        | none =>
+          exfalso
+          obtain ⟨ck, cr, hgc, hw, _⟩ := hM1.txrecsW k loc (by rw [h1]; exact hb) hb'
+          rw [hDone ck cr hgc] at hw; cases hw
+    · rw [h1, h2]
+  have e1 : o.s.credits = o1.s.credits := by rw [hos]; rfl
+  have e2 : o.s.debits = o1.s.debits := by rw [hos]; rfl
+  have e3 : o.s.txrecs = o1.s.txrecs := by rw [hos]; rfl
+  have e4 : o.s.blocks = o1.s.blocks := by rw [hos]; rfl
+  have e5 : o.s.unspent = o1.s.unspent.filter (fun e => (fun k : Wid × TxId × Nat => k.1 != w) e.1) := by rw [hos]; rfl
+  have e6 : o.s.game = o1.s.game.filter (fun e => (fun k : GameKey => k.wallet != w) e.1) := by rw [hos]; rfl
+  have e7 : o.s.balance = AMap.erase o1.s.balance w := by rw [hos]; rfl
+  have e8 : o.s.status = AMap.erase o1.s.status w := by rw [hos]; rfl
+  have e9 : o.s.sync = o1.s.sync := by rw [hos]; rfl
+  have e10 : o.s.syncedTo = o1.s.syncedTo := by rw [hos]; rfl
+  refine ⟨⟨?_, ?_, ?_, ?_, ?_, ?_⟩, ?_, ?_, ?_⟩
+  · -- unspent
+    intro w' tx idx
+    show AMap.get o.s.unspent (w', tx, idx) =
+      ((lookupU (bookOf c.p own' chain).L tx idx).filter (fun u => decide (u.wallet = w'))).map (·.blk)
+    rw [e5, get_filter_key o1.s.unspent (fun k : Wid × TxId × Nat => k.1 != w), hBM.L, lookupU_minus hkeys,
+      hM1.unspent, filter_keep_wallet]
+    by_cases hw' : w' = w
+    · simp [hw']
+    · simp [hw']
+  · intro k; show AMap.get o.s.credits k = _; rw [e1]; exact hcred k
+  · intro k; show AMap.get o.s.debits k = _; rw [e2]; exact hdeb k
+  · -- game
+    intro k
+    show AMap.get o.s.game k = (bookOf c.p own' chain).game k
+    rw [e6, get_filter_key o1.s.game (fun k : GameKey => k.wallet != w), hM1.game]
+    have := hBM.game k
+    by_cases hkw : k.wallet = w
+    · have h1 : (k.wallet != w) = false := by simp [hkw]
+      rw [h1]
+      simp only [Bool.false_eq_true, if_false]
+      cases hb' : (bookOf c.p own' chain).game k with
+      | none => rfl
+      | some u => exact absurd hkw (this.1 hb').2
+    · have h1 : (k.wallet != w) = true := by simp [hkw]
+      rw [h1]
+      simp only [if_true]
+      cases hb : U.game k with
+      | none =>
+        cases hb' : (bookOf c.p own' chain).game k with
+        | none => rfl
+        | some u => rw [(this.1 hb').1] at hb; cases hb
+      | some u => exact (this.2 ⟨hb, hkw⟩).symm
+  · intro k; show AMap.get o.s.txrecs k = _; rw [e3]; exact htx k
+  · -- blocks
+    intro h'
+    show AMap.get o.s.blocks h' = (bookOf c.p own' chain).blocks h'
+    rw [e4, hM1.blocks h', blocks_eq_blockRecOf c.p own' chain hV' H.heights h']
+    exact blockRecOf_congr chain h' (fun k => by rw [htx])
+  · -- balances
+    intro w' hw'
+    show AMap.get o.s.balance w' = some (totalU (bookOf c.p own' chain).L w')
+    obtain ⟨hmem, hst⟩ := (ready_iff o.s ws' w').1 hw'
+    rw [e8, AMap.get_erase] at hst
+    have hne : w' ≠ w := by
+      intro he
+      rw [he] at hst
+      simp at hst
+    have hne' : ¬ w = w' := fun he => hne he.symm
+    rw [if_neg hne'] at hst
+    rw [e7, AMap.get_erase, if_neg hne', hBM.L, totalU_minus _ hne]
+    exact hM1.bal w' hne ((ready_iff o1.s c.wallets w').2 ⟨hws w' hmem, hst⟩)
+  · intro h'; rw [e9]; exact hM1.sync h'
+  · rw [e10]; exact hM1.syncedTo
+/-- the worker loop, however many transactions it takes: every intermediate store satisfies `Mid`, and completion
+    gives C01's invariant for the context without the removed keystore -/
+theorem run_projects_U (limit : Nat) (H : RemHyp c w addrs own' chain) (HU : UpperOK c w own' chain U) (ws' : List Wid)
+    (hws : ∀ x ∈ ws', x ∈ c.wallets) (n : Nat) {s s' : Store} (hM : MidU c w addrs own' s chain U) (h : run limit c w addrs n s = .done s') :
+    Inv { c with own := own', wallets := ws' } s' chain := by
+  induction n generalizing s with
+  | zero => simp [run] at h
+  | succ n ih =>
+    unfold run at h
+    cases hstep : removeStep limit c w addrs s with
+    | none => simp [hstep] at h
+    | some o =>
+      simp only [hstep] at h
+      by_cases hfin : o.finish = true
+      · simp only [hfin, if_true, RunRes.done.injEq] at h
+        subst h
+        exact finish_projects_U limit H HU hM ws' hws hstep hfin
+      · simp only [hfin, Bool.false_eq_true, if_false] at h
+        exact ih (parked_step_U limit H HU hM hstep (by simpa using hfin)) h
+
+/-- in EVERY state of a removal in progress, what the queries read for another wallet `w'` — its unspent index,
+    the credits of its coins, its balance — is what the books of the chain imply for the keystore view without `w` -/
+theorem mid_survivors_U (HU : UpperOK c w own' chain U) {s : Store} (hM : MidU c w addrs own' s chain U)
+    {w' : Wid} (hw' : w' ≠ w) :
+    (∀ tx idx, AMap.get s.unspent (w', tx, idx) =
+      ((lookupU (bookOf c.p own' chain).L tx idx).filter (fun u => decide (u.wallet = w'))).map (·.blk)) ∧
+    (∀ k cr, (bookOf c.p own' chain).credits k = some cr → AMap.get s.credits k = some cr) ∧
+    ((readyWallets s c.wallets).contains w' = true →
+      AMap.get s.balance w' = some (totalU (bookOf c.p own' chain).L w')) := by
+  have hBM := HU.minus
+  have hkeys := HU.keys
+  refine ⟨?_, ?_, ?_⟩
+  · intro tx idx
+    rw [hM.unspent, hBM.L, lookupU_minus hkeys, filter_keep_wallet, if_neg hw']
+  · intro k cr hk
+    obtain ⟨h1, h2⟩ := (hBM.credits k cr).1 hk
+    rcases hM.credits k with h3 | ⟨_, cr', h4, h5⟩
+    · rw [h3]; exact h1
+    · rw [h1] at h4
+      rw [← Option.some.inj h4, h2] at h5; cases h5
+  · intro hr
+    rw [hBM.L, totalU_minus _ hw']
+    exact hM.bal w' hw' hr
+
+end
+
+-- ------------------------------------------------------------------ non-vacuity
+
+/-- every hypothesis of `finish_projects_U` holds of the concrete store of `MW.Lemmas.RemoveEx` (upper book = the books
+    of the chain for the full keystore table), hence its conclusion -/
+example (o : StepOut) (h : removeStep 20000 RemoveEx.ctx "W2" ["A2"] RemoveEx.st = some o) :
+    Inv { RemoveEx.ctx with own := RemoveEx.own', wallets := ["W1"] } o.s RemoveEx.chain := by
+  have hf : o.finish = true := by
+    have := RemoveEx.st_finishes
+    rw [h] at this
+    simpa using this
+  exact finish_projects_U 20000 RemoveEx.remHyp (upperOK_bookOf RemoveEx.remHyp)
+    (mid_to_midU (inv_to_mid RemoveEx.remHyp RemoveEx.inv RemoveEx.st_nodup RemoveEx.st_pend))
+    ["W1"] (by intro x hx; simp at hx; subst hx; decide) h hf
+
+end MW.Lemmas.RemoveUpper
